@@ -1,10 +1,9 @@
 import StoneVerif.Model.Stdin
-/-! Lemmas about the stdin splitter (C11): `split` on a concatenation of texts that each start with the keyword
-and contain it once.  The combinatorial core is that `namespace` has no border (no proper prefix that is also a
-suffix), so an occurrence cannot straddle the end of one text and the keyword opening the next. -/
+/-! Lemmas about the stdin splitter (C11): `splitLines` on a concatenation of texts each of which begins with the
+keyword line, has no other line beginning with it, and ends with a newline.  The point is locality: whether a
+position is cut depends on the character before it and on at most ten characters after it, and a text that ends
+with a newline cannot lend a prefix of `namespace` to the text that follows. -/
 namespace StoneVerif.Stdin
-
-theorem kw_eq : kw = ['n', 'a', 'm', 'e', 's', 'p', 'a', 'c', 'e'] := by decide
 
 theorem kw_length : kw.length = 9 := by decide
 
@@ -19,151 +18,163 @@ theorem isPrefixOf_append_long (sep u w : List Char) (h : sep.length ≤ u.lengt
       simp only [List.length_cons, Nat.add_le_add_iff_right] at h
       simp [List.isPrefixOf, ih u' h]
 
-theorem isPrefixOf_short (sep u : List Char) (h : u.length < sep.length) : sep.isPrefixOf u = false := by
-  induction sep generalizing u with
-  | nil => simp at h
-  | cons s sep' ih =>
-    cases u with
-    | nil => rfl
-    | cons x u' =>
-      simp only [List.length_cons, Nat.add_lt_add_iff_right] at h
-      simp [List.isPrefixOf, ih u' h]
+theorem endsNL_cons_cons (a b : Char) (r : List Char) : endsNL (a :: b :: r) = endsNL (b :: r) := rfl
 
-theorem isPrefixOf_self_append (sep z : List Char) : sep.isPrefixOf (sep ++ z) = true := by
-  induction sep with
-  | nil => simp
-  | cons s sep' ih => simp [ih]
-
-/-- `namespace` has no border: it cannot start inside the tail of one text and run into the keyword that opens
-the next text -/
-theorem border (u v : List Char) (h1 : u ≠ []) (h2 : u.length < 9) : kw.isPrefixOf (u ++ (kw ++ v)) = false := by
-  rw [kw_eq]
-  match u, h1, h2 with
-  | [_], _, _ => simp [List.isPrefixOf]
-  | [_, _], _, _ => simp [List.isPrefixOf]
-  | [_, _, _], _, _ => simp [List.isPrefixOf]
-  | [_, _, _, _], _, _ => simp [List.isPrefixOf]
-  | [_, _, _, _, _], _, _ => simp [List.isPrefixOf]
-  | [_, _, _, _, _, _], _, _ => simp [List.isPrefixOf]
-  | [_, _, _, _, _, _, _], _, _ => simp [List.isPrefixOf]
-  | [_, _, _, _, _, _, _, _], _, _ => simp [List.isPrefixOf]
-  | _ :: _ :: _ :: _ :: _ :: _ :: _ :: _ :: _ :: _, _, h => simp at h; omega
-
-/-! ### `split` -/
-
-theorem split_skip (sep : List Char) (x y : List Char) : split sep x.length (x ++ y) = split sep 0 y := by
-  induction x with
-  | nil => rfl
-  | cons c x' ih => simpa [split] using ih
-
-theorem split_sep (sep z : List Char) (h : sep ≠ []) : split sep 0 (sep ++ z) = [] :: split sep 0 z := by
-  cases sep with
-  | nil => simp at h
-  | cons s sep' =>
-    have hp : (s :: sep').isPrefixOf (s :: (sep' ++ z)) = true := isPrefixOf_self_append (s :: sep') z
-    simp only [List.cons_append, split, hp, if_true, List.length_cons, Nat.add_sub_cancel]
-    rw [split_skip]
-
-theorem split_nomatch (sep r rest p : List Char) (ps : List (List Char))
-    (hno : ∀ k, k < r.length → sep.isPrefixOf (r.drop k ++ rest) = false)
-    (hrest : split sep 0 rest = p :: ps) : split sep 0 (r ++ rest) = (r ++ p) :: ps := by
-  induction r with
-  | nil => simpa using hrest
-  | cons c r' ih =>
-    have h0 := hno 0 (by simp)
-    simp only [List.drop_zero, List.cons_append] at h0
-    have ih' := ih (fun k hk => by simpa using hno (k + 1) (by simpa using hk))
-    simp [split, h0, ih']
-
-/-! ### `occ` -/
-
-theorem occ_zero (sep x : List Char) (h : occ sep x = 0) : ∀ k, k < x.length → sep.isPrefixOf (x.drop k) = false := by
-  induction x with
-  | nil => intro k hk; simp at hk
-  | cons c cs ih =>
-    simp only [occ, Nat.add_eq_zero_iff] at h
-    intro k hk
-    cases k with
-    | zero =>
-      cases hp : sep.isPrefixOf (c :: cs) with
-      | true => simp [hp] at h
-      | false => simpa using hp
-    | succ k => simpa using ih h.2 k (by simpa using hk)
-
-theorem occ_zero_suffix (sep a b : List Char) (h : occ sep (a ++ b) = 0) :
-    ∀ k, k < b.length → sep.isPrefixOf (b.drop k) = false := by
+theorem endsNL_append_cons (a : List Char) (b : Char) (r : List Char) : endsNL (a ++ b :: r) = endsNL (b :: r) := by
   induction a with
-  | nil => exact occ_zero sep b h
-  | cons c a' ih =>
-    simp only [List.cons_append, occ, Nat.add_eq_zero_iff] at h
-    exact ih h.2
+  | nil => rfl
+  | cons x a' ih =>
+    cases a' with
+    | nil => simp [endsNL]
+    | cons y a'' => simpa [endsNL_cons_cons] using ih
 
-theorem occ_self_append (s : Char) (sep' r : List Char) :
-    occ (s :: sep') ((s :: sep') ++ r) = 1 + occ (s :: sep') (sep' ++ r) := by
-  have hp : (s :: sep').isPrefixOf (s :: (sep' ++ r)) = true := isPrefixOf_self_append (s :: sep') r
-  rw [List.cons_append, occ, hp]
-  simp
+/-- no non-empty prefix of the keyword ends with a newline -/
+theorem take_kw_not_endsNL : ∀ k, k < 10 → 1 ≤ k → endsNL (kw.take k) = false := by decide
 
-/-- a text that starts with the keyword and contains it once: no occurrence inside the remainder -/
-theorem once_tail (r : List Char) (h : occ kw (kw ++ r) = 1) :
-    ∀ k, k < r.length → kw.isPrefixOf (r.drop k) = false := by
-  rw [kw_eq] at h ⊢
-  rw [occ_self_append] at h
-  have h' : occ ['n', 'a', 'm', 'e', 's', 'p', 'a', 'c', 'e'] (['a', 'm', 'e', 's', 'p', 'a', 'c', 'e'] ++ r) = 0 := by
-    omega
-  exact occ_zero_suffix _ _ r h'
+/-- a short text that ends with a newline is not the beginning of the keyword -/
+theorem prefix_short_false (u rest : List Char) (hne : u ≠ []) (hnl : endsNL u = true) (hlen : u.length ≤ 9) :
+    kw.isPrefixOf (u ++ rest) = false := by
+  cases hp : kw.isPrefixOf (u ++ rest) with
+  | false => rfl
+  | true =>
+    exfalso
+    rw [List.isPrefixOf_iff_prefix] at hp
+    obtain ⟨z, hz⟩ := hp
+    have h1 : (kw ++ z).take u.length = kw.take u.length := by
+      rw [List.take_append_of_le_length (by rw [kw_length]; exact hlen)]
+    have h2 : (u ++ rest).take u.length = u := by simp
+    rw [hz, h2] at h1
+    have hk : 1 ≤ u.length := by
+      cases u with
+      | nil => exact absurd rfl hne
+      | cons _ _ => simp
+    have := take_kw_not_endsNL u.length (by omega) hk
+    rw [← h1, hnl] at this
+    exact Bool.noConfusion this
 
-/-- no match starts inside the remainder `r` of a text, whatever legal text (or nothing) follows -/
-theorem nomatch_of_once (r rest : List Char) (h : occ kw (kw ++ r) = 1) (hrest : rest = [] ∨ ∃ v, rest = kw ++ v) :
-    ∀ k, k < r.length → kw.isPrefixOf (r.drop k ++ rest) = false := by
-  intro k hk
-  by_cases hl : 9 ≤ (r.drop k).length
-  · rw [isPrefixOf_append_long _ _ _ (by rw [kw_length]; exact hl)]
-    exact once_tail r h k hk
-  · have hne : r.drop k ≠ [] := by
-      intro he
-      have : (r.drop k).length = 0 := by rw [he]; rfl
-      simp at this; omega
-    rcases hrest with rfl | ⟨v, rfl⟩
-    · exact isPrefixOf_short _ _ (by rw [kw_length]; simp; simp at hl; omega)
-    · exact border _ v hne (by omega)
+/-- locality: a non-empty text ending with a newline decides by itself whether `namespace\b` stands at its head -/
+theorem kwb_local (w : Char → Bool) (u rest : List Char) (hne : u ≠ []) (hnl : endsNL u = true) :
+    kwb w (u ++ rest) = kwb w u := by
+  by_cases hlen : u.length ≤ 9
+  · have h1 := prefix_short_false u rest hne hnl hlen
+    have h2 := prefix_short_false u [] hne hnl hlen
+    rw [List.append_nil] at h2
+    simp [kwb, h1, h2]
+  · have hl : 10 ≤ u.length := by omega
+    unfold kwb
+    rw [isPrefixOf_append_long _ _ _ (by rw [kw_length]; omega), List.drop_append_of_le_length (by rw [kw_length]; omega)]
+    have : ∃ c r, u.drop kw.length = c :: r := by
+      cases hd : u.drop kw.length with
+      | nil =>
+        have := congrArg List.length hd
+        simp [kw_length] at this
+        omega
+      | cons c r => exact ⟨c, r, rfl⟩
+    obtain ⟨c, r, hc⟩ := this
+    rw [hc]
+    rfl
 
-theorem prefix_decomp (t : List Char) (h : kw <+: t) : t = kw ++ t.drop 9 := by
-  obtain ⟨r, rfl⟩ := h
-  rw [← kw_length, List.drop_left]
+theorem kwb_length (w : Char → Bool) (t : List Char) (h : kwb w t = true) : 9 ≤ t.length := by
+  unfold kwb at h
+  simp only [Bool.and_eq_true] at h
+  have := (List.isPrefixOf_iff_prefix.1 h.1).length_le
+  rw [kw_length] at this
+  exact this
 
-/-- the parts `str.split` finds in the concatenation -/
-theorem split_flatten (ts : List (List Char)) (hne : ts ≠ [])
-    (h : ∀ t ∈ ts, kw <+: t ∧ occ kw t = 1) :
-    split kw 0 ts.flatten = [] :: ts.map (·.drop 9) := by
-  induction ts with
-  | nil => simp at hne
-  | cons t ts' ih =>
-    obtain ⟨hp, ho⟩ := h t (by simp)
-    have ht := prefix_decomp t hp
-    generalize t.drop 9 = r at ht
-    subst ht
-    have hk : kw ≠ [] := by decide
-    simp only [List.flatten_cons, List.append_assoc, List.map_cons]
-    rw [split_sep kw _ hk]
-    congr 1
-    have hd : (kw ++ r).drop 9 = r := by rw [← kw_length, List.drop_left]
-    rw [hd]
-    cases ts' with
-    | nil =>
-      have := split_nomatch kw r [] [] [] (nomatch_of_once r [] ho (Or.inl rfl)) (by simp [split])
-      simpa using this
-    | cons t2 ts'' =>
-      have ih' := ih (by simp) (fun x hx => h x (by simp [hx]))
-      have hrest : (t2 :: ts'').flatten = [] ∨ ∃ v, (t2 :: ts'').flatten = kw ++ v := by
-        right
-        obtain ⟨hp2, _⟩ := h t2 (by simp)
-        obtain ⟨r2, rfl⟩ := hp2
-        exact ⟨r2 ++ ts''.flatten, by simp⟩
-      have := split_nomatch kw r _ [] _ (nomatch_of_once r _ ho hrest) ih'
-      simpa using this
+/-! ### `splitLines` -/
 
-theorem number_snd (k : Nat) (ps : List (List Char)) : (number k ps).map Prod.snd = ps.map (kw ++ ·) := by
+theorem splitLines_ne (w : Char → Bool) (ls : Bool) (s : List Char) : ∃ h t, splitLines w ls s = h :: t := by
+  cases s with
+  | nil => exact ⟨[], [], rfl⟩
+  | cons c cs =>
+    simp only [splitLines]
+    split
+    · exact ⟨_, _, rfl⟩
+    · split <;> exact ⟨_, _, rfl⟩
+
+/-- a stretch without a line that begins with the keyword is not cut, whatever follows it -/
+theorem splitLines_nostart (w : Char → Bool) (u : List Char) : ∀ (ls : Bool) (R h : List Char) (t : List (List Char)),
+    starts w ls u = 0 → endsNL u = true →
+    splitLines w (if u.isEmpty then ls else true) R = h :: t →
+    splitLines w ls (u ++ R) = (u ++ h) :: t := by
+  induction u with
+  | nil => intro ls R h t _ _ hR; simpa using hR
+  | cons c u' ih =>
+    intro ls R h t hs hnl hR
+    simp only [starts, Nat.add_eq_zero_iff] at hs
+    obtain ⟨hdec, hs'⟩ := hs
+    have hloc := kwb_local w (c :: u') R (by simp) hnl
+    have hdec' : (ls && kwb w (c :: (u' ++ R))) = false := by
+      rw [← List.cons_append, hloc]
+      cases hx : (ls && kwb w (c :: u')) with
+      | false => rfl
+      | true => simp [hx] at hdec
+    have hnl' : endsNL u' = true := by
+      cases u' with
+      | nil => rfl
+      | cons b r => simpa [endsNL_cons_cons] using hnl
+    have hstate : (if u'.isEmpty then (c == '\n') else true) = true := by
+      cases u' with
+      | nil => simpa [endsNL] using hnl
+      | cons b r => rfl
+    have hR' : splitLines w (if u'.isEmpty then (c == '\n') else true) R = h :: t := by
+      rw [hstate]; simpa using hR
+    have := ih (c == '\n') R h t hs' hnl' hR'
+    simp only [List.cons_append, splitLines, this, hdec']
+    simp
+
+/-- what the hypotheses of `stdin_split` say about one text -/
+structure Good (w : Char → Bool) (t : List Char) : Prop where
+  /-- it begins with `namespace` followed by the end of the text or a non-word character -/
+  head : kwb w t = true
+  /-- no other line of it begins that way -/
+  once : starts w true t = 1
+  /-- it ends with a newline -/
+  nl : endsNL t = true
+
+theorem splitLines_flatten (w : Char → Bool) (p : List Char) (ts : List (List Char))
+    (hp0 : starts w true p = 0) (hpnl : endsNL p = true) (hne : ts ≠ []) (h : ∀ t ∈ ts, Good w t) :
+    splitLines w true (p ++ ts.flatten) = p :: ts := by
+  have key : ∀ ts : List (List Char), ts ≠ [] → (∀ t ∈ ts, Good w t) → splitLines w true ts.flatten = [] :: ts := by
+    intro ts
+    induction ts with
+    | nil => intro hne; exact absurd rfl hne
+    | cons t ts' ih =>
+      intro _ h
+      obtain ⟨hk, ho, hn⟩ := h t (by simp)
+      have hlen := kwb_length w t hk
+      cases t with
+      | nil => simp at hlen
+      | cons c t' =>
+        have ht' : t' ≠ [] := by
+          intro he; subst he
+          simp at hlen
+        have hloc := kwb_local w (c :: t') ts'.flatten (by simp) hn
+        simp only [starts, hk, Bool.and_self, if_true] at ho
+        have hs' : starts w (c == '\n') t' = 0 := by omega
+        have hn' : endsNL t' = true := by
+          cases t' with
+          | nil => exact absurd rfl ht'
+          | cons b r => simpa [endsNL_cons_cons] using hn
+        have hst : (if t'.isEmpty then (c == '\n') else true) = true := by
+          cases t' with
+          | nil => exact absurd rfl ht'
+          | cons b r => rfl
+        have hR : ∃ tl, splitLines w true ts'.flatten = [] :: tl ∧ tl = ts' := by
+          cases ts' with
+          | nil => exact ⟨[], rfl, rfl⟩
+          | cons t2 ts'' => exact ⟨_, ih (by simp) (fun x hx => h x (by simp [hx])), rfl⟩
+        obtain ⟨tl, hR, rfl⟩ := hR
+        have := splitLines_nostart w t' (c == '\n') tl.flatten [] tl hs' hn' (by rw [hst]; exact hR)
+        have hdec : (true && kwb w (c :: (t' ++ tl.flatten))) = true := by
+          rw [← List.cons_append, hloc, hk]; rfl
+        simp only [List.flatten_cons, List.cons_append, splitLines, this, hdec]
+        simp
+  have hk := key ts hne h
+  have := splitLines_nostart w p true ts.flatten [] ts hp0 hpnl (by simpa using hk)
+  simpa using this
+
+theorem number_snd (k : Nat) (ps : List (List Char)) : (number k ps).map Prod.snd = ps := by
   induction ps generalizing k with
   | nil => rfl
   | cons p ps ih => simp [number, ih]
@@ -173,29 +184,13 @@ theorem number_fst (k : Nat) (ps : List (List Char)) : (number k ps).map Prod.fs
   | nil => rfl
   | cons p ps ih => simp [number, ih, List.range'_succ]
 
-theorem map_restore (ts : List (List Char)) (h : ∀ t ∈ ts, kw <+: t) : ts.map (fun t => kw ++ t.drop 9) = ts := by
-  induction ts with
-  | nil => rfl
-  | cons t ts ih =>
-    simp only [List.map_cons]
-    rw [← prefix_decomp t (h t (by simp)), ih (fun x hx => h x (by simp [hx]))]
-
-theorem splitStdinL_flatten (ts : List (List Char)) (hne : ts ≠ [])
-    (h : ∀ t ∈ ts, kw <+: t ∧ occ kw t = 1) :
-    (splitStdinL ts.flatten).map Prod.snd = ts ∧ (splitStdinL ts.flatten).map Prod.fst = List.range' 1 ts.length := by
-  have hs := split_flatten ts hne h
-  have hp : ∀ t ∈ ts, kw <+: t := fun t ht => (h t ht).1
-  unfold splitStdinL
-  rw [hs]
-  cases ts with
-  | nil => simp at hne
-  | cons t ts' =>
-    have hm := map_restore (t :: ts') hp
-    simp only [List.map_cons] at hm ⊢
-    simp only [List.nil_append, number_snd, number_fst, List.map_map, List.length_cons, List.length_map]
-    constructor
-    · simpa [Function.comp_def] using hm
-    · simp [List.range'_succ]
+theorem splitStdinW_flatten (w : Char → Bool) (p : List Char) (t1 : List Char) (rest : List (List Char))
+    (hp0 : starts w true p = 0) (hpnl : endsNL p = true) (h : ∀ t ∈ t1 :: rest, Good w t) :
+    (splitStdinW w (p ++ (t1 :: rest).flatten)).map Prod.snd = (p ++ t1) :: rest ∧
+    (splitStdinW w (p ++ (t1 :: rest).flatten)).map Prod.fst = List.range' 1 (rest.length + 1) := by
+  unfold splitStdinW
+  rw [splitLines_flatten w p (t1 :: rest) hp0 hpnl (by simp) h]
+  simp [number_snd, number_fst, List.range'_succ]
 
 /-! ### strings -/
 
